@@ -60,6 +60,9 @@ type Channel struct {
 	// lastPkgRx/Tx are the last packages sent to/received from the TDS
 	// server
 	lastPkgRx, lastPkgTx Package
+	// lastRefPkgRx is the last package received that was not an
+	// EEDPackage - the package a following data package refers to
+	lastRefPkgRx Package
 	// packageCh stores Packages as they are parsed from Packets
 	packageCh chan Package
 
@@ -275,6 +278,7 @@ func (tdsChan *Channel) SetLastPkgRx(pkg Package) {
 	tdsChan.Lock()
 	defer tdsChan.Unlock()
 	tdsChan.lastPkgRx = pkg
+	tdsChan.lastRefPkgRx = pkg
 }
 
 func (tdsChan *Channel) SetLastPkgTx(pkg Package) {
@@ -659,7 +663,7 @@ func (tdsChan *Channel) tryParsePackage() bool {
 	}
 
 	if acceptor, ok := pkg.(LastPkgAcceptor); ok {
-		if err := acceptor.LastPkg(tdsChan.lastPkgRx); err != nil {
+		if err := acceptor.LastPkg(tdsChan.lastRefPkgRx); err != nil {
 			tdsChan.errCh <- fmt.Errorf("error in LastPkg: %w", err)
 			return false
 		}
@@ -696,5 +700,11 @@ func (tdsChan *Channel) tryParsePackage() bool {
 
 	tdsChan.packageCh <- pkg
 	tdsChan.lastPkgRx = pkg
+	// Server messages can arrive anywhere in a response, also between
+	// a format package and its data packages - they must not replace the
+	// package the following data packages refer to.
+	if _, ok := pkg.(*EEDPackage); !ok {
+		tdsChan.lastRefPkgRx = pkg
+	}
 	return true
 }
